@@ -7,8 +7,11 @@ import (
 	"encoding/json"
 	"fmt"
 	"io"
+	"os"
+	"path/filepath"
 	"strings"
 	"sync"
+	"time"
 
 	"filippo.io/age"
 	"filippo.io/age/internal/format"
@@ -161,6 +164,8 @@ CHECK_DEADLOCK FALSE
 			actual = c.Expected.LogN
 		} else if v := leadingInt(wf); v >= 1 && v <= 12 {
 			actual = v // if the gate were too lax the derivation would even succeed
+		} else if v := wrapped(wf); v >= 1 && v <= 12 {
+			actual = v // a parser that wraps around on overflow would read this small number
 		}
 		fk := make([]byte, 16)
 		rand.Read(fk)
@@ -192,6 +197,17 @@ CHECK_DEADLOCK FALSE
 			continue
 		}
 		file := buildFile(t, fk, ss, pt)
+		if len(c.Layout) > 1 {
+			// with a WRONG passphrase too the header must be rejected outright (not treated as "not mine"): another identity
+			// listed after the passphrase identity must not get to open a header that mixes a passphrase stanza with others
+			wrongID, _ := age.NewScryptIdentity("not " + pw)
+			wrongID.SetMaxWorkFactor(c.Max)
+			r, err := age.Decrypt(bytes.NewReader(file), wrongID, x1)
+			run.Eval(1)
+			if err == nil && r != nil {
+				run.Violation(fmt.Sprintf("C10:mixed-header-accepted:layout=%s", strings.Join(c.Layout, ",")), fmt.Sprintf("a passphrase identity (wrong passphrase) followed by an X25519 identity: the header %v, in which the passphrase stanza is not alone, was opened", c.Layout), map[string]interface{}{"check": "C10.mixed", "layout": c.Layout})
+			}
+		}
 		for _, via := range []string{"Unwrap", "Decrypt"} {
 			id, _ := age.NewScryptIdentity(pw)
 			id.SetMaxWorkFactor(c.Max)
@@ -222,8 +238,27 @@ CHECK_DEADLOCK FALSE
 	run.Add("gate_cases", len(lines))
 	run.Add("derivations_observed", nDerive)
 	run.Sample(map[string]interface{}{"tlc_case": lines[len(lines)/2]})
+	cliGate(run, t, x1)
 	encryptSide(run, w, tier)
 	run.Finish()
+}
+
+// wrapped: the value of a decimal string modulo 2^64 and 2^32 if either is small (else 0).
+func wrapped(s string) int {
+	var v64 uint64
+	for _, c := range s {
+		if c < '0' || c > '9' {
+			return 0
+		}
+		v64 = v64*10 + uint64(c-'0')
+	}
+	if v64 >= 1 && v64 <= 12 {
+		return int(v64)
+	}
+	if v32 := uint32(v64); v32 >= 1 && v32 <= 12 {
+		return int(v32)
+	}
+	return 0
 }
 
 func leadingInt(s string) int {
@@ -302,4 +337,76 @@ func encryptSide(run *vk.Run, w *world.World, tier string) {
 		run.Distinct("enc:" + k)
 	}
 	run.Add("lists_with_passphrase_recipient", n)
+}
+
+// cliGate: the age command's passphrase identity (LazyScryptIdentity, default maximum 22) on forged files, through a pty.
+func cliGate(run *vk.Run, t *c05.Terms, x1 *age.X25519Identity) {
+	ageBin := filepath.Join(vk.BuildCLI(), "age")
+	dir, err := os.MkdirTemp("", "c10cli-")
+	if err != nil {
+		vk.Infra("%v", err)
+	}
+	defer os.RemoveAll(dir)
+	pt := []byte("C10 cli plaintext")
+	mk := func(layout []string, wf string, actual int) []byte {
+		fk := make([]byte, 16)
+		rand.Read(fk)
+		var ss []*format.Stanza
+		for _, k := range layout {
+			switch k {
+			case "scrypt":
+				ss = append(ss, forgeScrypt(t, fk, actual, wf))
+			case "X25519":
+				s, _ := x1.Recipient().Wrap(fk)
+				ss = append(ss, (*format.Stanza)(s[0]))
+			default:
+				ss = append(ss, &format.Stanza{Type: "k7Qz-grease", Args: []string{"a"}, Body: []byte{1, 2}})
+			}
+		}
+		return buildFile(t, fk, ss, pt)
+	}
+	cases := []struct {
+		name   string
+		file   []byte
+		accept bool
+	}{
+		{"wf=10", mk([]string{"scrypt"}, "10", 10), true},
+		{"wf=23-above-default-maximum", mk([]string{"scrypt"}, "23", 2), false},
+		{"wf=30", mk([]string{"scrypt"}, "30", 2), false},
+		{"wf=05", mk([]string{"scrypt"}, "05", 5), false},
+		{"wf=+5", mk([]string{"scrypt"}, "+5", 5), false},
+		{"wf=2^64+10", mk([]string{"scrypt"}, "18446744073709551626", 10), false},
+		{"grease,scrypt", mk([]string{"rand-grease", "scrypt"}, "4", 4), false},
+		{"scrypt,X25519", mk([]string{"scrypt", "X25519"}, "4", 4), false},
+		{"X25519,scrypt,X25519", mk([]string{"X25519", "scrypt", "X25519"}, "4", 4), false},
+	}
+	for _, c := range cases {
+		f := filepath.Join(dir, "in.age")
+		os.WriteFile(f, c.file, 0o644)
+		out := filepath.Join(dir, "out.txt")
+		os.Remove(out)
+		start := time.Now()
+		p := vk.RunProc(120*time.Second, dir, []string{"TERM=dumb"}, []byte(pw+"\n"), "script", "-qec", "'"+ageBin+"' -d -o out.txt in.age", "/dev/null")
+		el := time.Since(start)
+		run.Eval(1)
+		got, _ := os.ReadFile(out)
+		sig := "cli:" + c.name
+		rp := map[string]interface{}{"check": "C10.cli", "case": c.name}
+		if p.TimedOut {
+			run.Violation("C10:cli-hang:"+sig, "age -d did not finish within 120 s", rp)
+			continue
+		}
+		if c.accept {
+			if p.Exit != 0 || !bytes.Equal(got, pt) {
+				run.Drift("the CLI did not decrypt a passphrase file with an in-range canonical work factor (exit %d)", p.Exit)
+			}
+		} else {
+			if p.Exit == 0 || len(got) > 0 {
+				run.Violation("C10:cli-accepted:"+sig, fmt.Sprintf("age -d accepted %s (exit %d, %d bytes of output) although a passphrase identity must reject it", c.name, p.Exit, len(got)), rp)
+			} else if el > 20*time.Second {
+				run.Violation("C10:cli-work-before-reject:"+sig, fmt.Sprintf("age -d took %v to reject %s: key-derivation work was spent on a stanza that must be rejected without it", el, c.name), rp)
+			}
+		}
+		run.Distinct(sig)
+	}
 }
